@@ -167,8 +167,9 @@ func c15R2(c *core.Ctx) {
 			a := eng.CallArgs(&up.Call)
 			_, isDB := eng.LoadOfField(a[0], "db")
 			ok = ok && isDB
-			if mc, isMC := a[1].(*ssa.MakeClosure); isMC {
-				closure, _ = mc.Fn.(*ssa.Function)
+			// the transaction body: a closure literal, a function or a bound method value
+			if fv, _ := eng.FuncValue(a[1]); fv != nil && fv.Blocks != nil {
+				closure = fv
 			}
 		}
 	}
